@@ -217,4 +217,17 @@ def run_c19_batch(case):
         # gradient-transparent model, its VALUE is judged by the oracle
         out.append(line if nrn["act"] == "lukt" else None)
         vals.append(line)
-    return {"lines": lines, "impl": out, "meta": {"neuron_lines": vals}}
+    # the neurons a quantifier builds for its instances (unit-weight And for Forall, Or for Exists): value and d/d(instance)
+    qvals = []
+    for qn in case.get("qneurons", []):
+        P = L.Predicate("P")
+        xv = L.Variable("x")
+        qobj = (L.Forall if qn["kind"] == "forall" else L.Exists)(xv, P(xv))
+        k = len(qn["x"])
+        neuron = qobj._create_neuron(arity=k)
+        xs = [float(v) for v in qn["x"]]
+        ib = torch.tensor([[xs, xs]], requires_grad=True)          # [1, bounds, instances]
+        y = neuron.func(ib)
+        y[0][0].backward()
+        qvals.append({"value": q(Fr(y[0][0].item())), "dx": [q(Fr(g)) for g in ib.grad[0][0].tolist()]})
+    return {"lines": lines, "impl": out, "meta": {"neuron_lines": vals, "qneurons": qvals}}
